@@ -183,3 +183,25 @@ Definition fs_changes (f f' : fs) : list (str * content) :=
                    | Some d => negb (content_eqb d (snd e))
                    | None => true
                    end) f'.
+
+(* ---- adaptive programs ----
+   A list of requests fixes every request in advance.  A real grol program chooses its next request after seeing what
+   the previous ones returned - in particular load() evaluates the content it has just read, and that content may
+   issue further save/load/image/exec requests.  [program] is any such strategy: from the outcomes so far (contents
+   returned by load included) to the next request, or None when the program ends.  [n] bounds the number of requests
+   issued (every terminating execution is [run_prog] for some n). *)
+Definition program : Type := list outcome -> option request.
+
+Fixpoint run_prog (c : config) (ok : str -> bool) (p : program) (n : nat) (st : state) (hist : list outcome)
+  : state * list outcome :=
+  match n with
+  | O => (st, hist)
+  | S n' =>
+      match p hist with
+      | None => (st, hist)
+      | Some r => let '(st1, o) := step c ok st r in run_prog c ok p n' st1 (hist ++ [o])
+      end
+  end.
+
+(* the program that issues a fixed list of requests *)
+Definition prog_of_list (rs : list request) : program := fun hist => nth_error rs (length hist).
